@@ -505,7 +505,7 @@ func bigGdef(total int) *gdef.Table {
 	gc := classdef.Table{}
 	ma := classdef.Table{}
 	sets := []coverage.Set{{}, {}, {}}
-	for i := 1; i < total; i++ {
+	for i := 1; i < total && i < 4000; i++ { // the offsets inside GDEF are 16-bit: stay well below 64 kB
 		cls := uint16(1 + i%4)
 		gc[glyph.ID(i)] = cls
 		if cls == gdef.GlyphClassMark {
